@@ -80,8 +80,10 @@ def c05(ctx, t0):
     res = []
     if want(ctx, 'server'):
         res.append(ctx.run_child('server', [hx, 'c05'], T(ctx, 400, 3000), race=True))
+    if want(ctx, 'fd-exhaustion'):
+        res.append(ctx.run_child('fd-exhaustion', [ctx.build_hx(), 'c05fd'], T(ctx, 300, 900)))
     floors = {'connections': (counters(res, 'connections'), 2000), 'valid_streams': (counters(res, 'valid_streams'), 300),
-              'invalid_streams': (counters(res, 'invalid_streams'), 300), 'positive_replies': (counters(res, 'positive_replies'), 50)}
+              'invalid_streams': (counters(res, 'invalid_streams'), 300), 'positive_replies': (counters(res, 'positive_replies'), 50), 'rounds_with_full_descriptor_table': (counters(res, 'rounds_with_full_descriptor_table'), 2)}
     return finish(ctx, 'exploration', res, COMMON_ASSUME + [
         'an abandoned request is modelled as the client ending the stream (half-close or close); a client that keeps an unfinished request open is not a finished byte stream',
         'callbacks are attributed to connections by a unique login per connection',
